@@ -245,14 +245,11 @@ def h_two_threads(a, inst):
     pre = [a.p0] + list(a.pos)
     preempts = []
     for i in range(inst["P"]):
-        hi = min(200, L + 2)
-        p = hi
-        for c in range(0, hi + 1):
-            if pre[i] == c:
-                p = c
-        t = 1 if a.tgt[i] == 1 else 0
-        preempts.append((p, t))
-    ok, _ = run(preempts)
+        if pre[i] > L + 2:
+            return True  # beyond the end of the run
+        preempts.append((gate.concrete(pre[i], 0, L + 2), gate.concrete(a.tgt[i], 0, 1)))
+    with gate.untraced():
+        ok, _ = run(preempts)
     cover("ran")
     return ok
 
